@@ -424,7 +424,19 @@ impl<'r> Gen<'r> {
         let r = self.rng.below(100);
         let ack = self.ack_now().map(|a| wadd(a, self.pert()));
         match r {
-            0..=9 => {
+            8..=9 => {
+                // closure API: 0, a few, or more than the contiguous slice
+                let k = match self.rng.below(6) {
+                    0 => 0,
+                    1 => 1,
+                    2 => self.rng.range(2, 20) as usize,
+                    3 => self.cfg.tx,
+                    4 => self.cfg.tx / 2 + 1,
+                    _ => self.rng.range(1, 3000) as usize,
+                };
+                self.ev(format!("sendf {}", k.min(300000)));
+            }
+            0..=7 => {
                 let n = match self.rng.below(8) {
                     0 => 1,
                     1 | 2 => self.rng.range(2, 20) as usize,
@@ -436,7 +448,18 @@ impl<'r> Gen<'r> {
                 };
                 self.ev(format!("send {}", n.min(300000)));
             }
-            10..=16 => {
+            15..=16 => {
+                let k = match self.rng.below(6) {
+                    0 => 0,
+                    1 => 1,
+                    2 => self.rng.range(2, 20) as usize,
+                    3 => self.cfg.rx,
+                    4 => self.cfg.rx / 2 + 1,
+                    _ => self.rng.range(1, 3000) as usize,
+                };
+                self.ev(format!("recvf {}", k.min(300000)));
+            }
+            10..=14 => {
                 let n = match self.rng.below(5) {
                     0 => 1,
                     1 => self.rng.range(2, 20) as usize,
@@ -448,11 +471,31 @@ impl<'r> Gen<'r> {
             }
             17 => {
                 let n = self.rng.range(0, 100);
-                self.ev(format!("peek {}", n));
+                if self.rng.chance(1, 2) {
+                    self.ev(format!("peek {}", n));
+                } else {
+                    self.ev(format!("peekc {}", n));
+                }
             }
             18 => {
-                let n = self.rng.range(0, 100);
-                self.ev(format!("peekc {}", n));
+                // error arms of the user calls, from whatever state the socket is in: listen on port 0 or on
+                // another endpoint while open, connect with port 0 / unspecified or IPv6 remote / unspecified
+                // local address (all of these must fail and leave the state alone)
+                let open = !matches!(self.sim.state(), tcp::State::Closed | tcp::State::TimeWait) || self.sim.dead;
+                let (rp, lp) = (self.pp, self.lp);
+                let e = match self.rng.below(if open { 10 } else { 8 }) {
+                    0 => "listen 0".to_string(),
+                    1 => format!("connect rp=0 lp={}", lp),
+                    2 => format!("connect rp={} lp={} ra=0", rp, lp),
+                    3 => format!("connect rp={} lp=0", rp),
+                    4 => format!("connect rp={} lp={} la=0", rp, lp),
+                    5 => format!("connect rp={} lp={} ra=6 la=4", rp, lp),
+                    6 => format!("connect rp={} lp={} ra=60", rp, lp),
+                    7 => format!("connect rp=0 lp=0 ra=60 la=0"),
+                    8 => format!("connect rp={} lp={}{}", rp, lp, if self.rng.chance(1, 2) { " la=4" } else { "" }),
+                    _ => format!("listen {}{}", lp.wrapping_add(self.rng.range(0, 1) as u16).max(1), if self.rng.chance(1, 3) { " a=1" } else { "" }),
+                };
+                self.ev(e);
             }
             19..=34 => self.poll(),
             35..=46 => {
